@@ -419,12 +419,17 @@ fn priv_function_with_body_multi_lowering<'db>(
     let crate_id = function_id.parent_module(db).owning_crate(db);
     if let Some(map) = db.cached_multi_lowerings(crate_id) {
         if let Some(multi_lowering) = map.get(&function_id) {
+            // Verification hook (H3): a lowering served from a crate cache.
+            #[cfg(feature = "verif")]
+            cairo_lang_utils::verif::count("lowering.multi_lowering.from_cache", 1);
             return Ok(multi_lowering.clone());
         } else {
             panic!("function not found in cached lowering {:?}", function_id.debug(db));
         }
     };
 
+    #[cfg(feature = "verif")]
+    cairo_lang_utils::verif::count("lowering.multi_lowering.from_source", 1);
     lower_semantic_function(db, function_id)
 }
 
